@@ -1,157 +1,192 @@
+// c05: correspondence + monitors for properties C05 (every outgoing transfer is in exactly one place and is
+// settled once) and C06 (time-outs only on an observed external height). VERIF_PROP selects which property's
+// monitors and generator weights are used; the correspondence stream (real application vs coq/model/M_Pool.v)
+// is the same machinery for both.
+//
+// Every operation goes through the real MsgServer / real oracle claims of the full application
+// (lib.NewChain); after every operation the raw stores 0x18, 0x20, 0x21, 0x25, 0x48, 0x49, 0x51, 0x54, 0x24,
+// 0x32, the balances of the accounts involved and the three events are read and written, together with the
+// operation, into Cases_<prop>.v where coqc evaluates the model on the same history.
 package main
 
 import (
 	"fmt"
+	"os"
 
-	sdkmath "cosmossdk.io/math"
-	sdk "github.com/cosmos/cosmos-sdk/types"
-	authtypes "github.com/cosmos/cosmos-sdk/x/auth/types"
-	"github.com/ethereum/go-ethereum/common"
-
-	fxtypes "github.com/functionx/fx-core/v8/types"
 	crosschaintypes "github.com/functionx/fx-core/v8/x/crosschain/types"
-	erc20types "github.com/functionx/fx-core/v8/x/erc20/types"
 
 	"fxverif/lib"
 )
 
-func main() {
-	c := lib.NewChain(1, 1, nil)
-	x := c.X("eth")
-	x.SetupOracles([]int64{10000, 10000, 10000})
-	if err := c.NextBlock(); err != nil {
-		panic(err)
-	}
-	ctx := c.Ctx
-	k := x.Keeper
-	mod := authtypes.NewModuleAddress("eth")
-	cFX := "0x1111111111111111111111111111111111111111"
-	cB := "0x2222222222222222222222222222222222222222"
-	lib.Must(k.AddBridgeTokenExecuted(ctx, &crosschaintypes.MsgBridgeTokenClaim{TokenContract: cFX, Name: "Function X", Symbol: "FX", Decimals: 18, ChainName: "eth"}))
-	bdB := crosschaintypes.NewBridgeDenom("eth", cB)
-	lib.Must(k.SetToken(ctx, "Test Token", "usdt", 18, bdB))
-	lib.Must(k.AddBridgeTokenExecuted(ctx, &crosschaintypes.MsgBridgeTokenClaim{TokenContract: cB, Name: "Test Token", Symbol: bdB, Decimals: 18, ChainName: "eth"}))
-	erc20Mod := common.BytesToAddress(authtypes.NewModuleAddress(erc20types.ModuleName).Bytes())
-	addr, err := c.App.Erc20Keeper.DeployUpgradableToken(ctx, erc20Mod, "Test Token", "USDT", 18)
-	lib.Must(err)
-	c.App.Erc20Keeper.AddTokenPair(ctx, erc20types.TokenPair{Erc20Address: addr.String(), Denom: "usdt", Enabled: true, ContractOwner: erc20types.OWNER_EXTERNAL})
+type histResult struct {
+	ops   []Op
+	fails []monFail
+	steps []string
+	w     *World
+}
 
-	u := lib.EthKey(1, "user", 0)
-	v := lib.EthKey(1, "user", 1)
-	c.Mint(u.Acc(), lib.FX(100), sdk.NewCoin("usdt", sdkmath.NewInt(1000)), sdk.NewCoin(bdB, sdkmath.NewInt(1000)))
-	c.Mint(v.Acc(), lib.FX(100), sdk.NewCoin("usdt", sdkmath.NewInt(1000)), sdk.NewCoin(bdB, sdkmath.NewInt(1000)))
-	lib.Must(c.App.BankKeeper.MintCoins(c.Ctx, "eth", sdk.NewCoins(sdk.NewCoin(bdB, sdkmath.NewInt(5000)))))
-	bal := func(tag string) {
-		fmt.Println(tag, "u:", c.App.BankKeeper.GetAllBalances(c.Ctx, u.Acc()), "v:", c.App.BankKeeper.GetAllBalances(c.Ctx, v.Acc()), "mod:", c.App.BankKeeper.GetAllBalances(c.Ctx, mod))
-	}
-	bal("init")
-	dest := "0x3333333333333333333333333333333333333333"
-	try := func(tag string, f func(ctx sdk.Context) error) {
-		err := c.Try(f)
-		fmt.Println(tag, "->", err)
-		bal(tag)
-	}
-	ms := x.Msg()
-	try("sendFX", func(ctx sdk.Context) error {
-		m := &crosschaintypes.MsgSendToExternal{Sender: u.Acc().String(), Dest: dest, Amount: sdk.NewCoin(fxtypes.DefaultDenom, sdkmath.NewInt(100)), BridgeFee: sdk.NewCoin(fxtypes.DefaultDenom, sdkmath.NewInt(7)), ChainName: "eth"}
-		if e := m.ValidateBasic(); e != nil {
-			return e
+func runHistory(prop string, seed int64, prm [4]uint64, float int64, n int, g *Gen, script []Op, rep *lib.Report, hid string) histResult {
+	w := NewWorld(seed, prm, float)
+	mon := NewMonitor(w)
+	prev := w.snapshot()
+	var res histResult
+	res.w = w
+	changed := 0
+	for i := 0; i < n; i++ {
+		var op Op
+		if script != nil {
+			if i >= len(script) {
+				break
+			}
+			op = script[i]
+		} else {
+			op = g.next(prev, n-i)
 		}
-		r, e := ms.SendToExternal(ctx, m)
-		fmt.Println("  resp", r)
-		return e
-	})
-	try("sendB", func(ctx sdk.Context) error {
-		m := &crosschaintypes.MsgSendToExternal{Sender: u.Acc().String(), Dest: dest, Amount: sdk.NewCoin("usdt", sdkmath.NewInt(100)), BridgeFee: sdk.NewCoin("usdt", sdkmath.NewInt(7)), ChainName: "eth"}
-		r, e := ms.SendToExternal(ctx, m)
-		fmt.Println("  resp", r)
-		return e
-	})
-	try("incFX", func(ctx sdk.Context) error {
-		_, e := ms.IncreaseBridgeFee(ctx, &crosschaintypes.MsgIncreaseBridgeFee{ChainName: "eth", TransactionId: 1, Sender: v.Acc().String(), AddBridgeFee: sdk.NewCoin("FX", sdkmath.NewInt(3))})
-		return e
-	})
-	try("incB-base", func(ctx sdk.Context) error {
-		_, e := ms.IncreaseBridgeFee(ctx, &crosschaintypes.MsgIncreaseBridgeFee{ChainName: "eth", TransactionId: 2, Sender: v.Acc().String(), AddBridgeFee: sdk.NewCoin("usdt", sdkmath.NewInt(3))})
-		return e
-	})
-	try("incB-bridge", func(ctx sdk.Context) error {
-		_, e := ms.IncreaseBridgeFee(ctx, &crosschaintypes.MsgIncreaseBridgeFee{ChainName: "eth", TransactionId: 2, Sender: v.Acc().String(), AddBridgeFee: sdk.NewCoin(bdB, sdkmath.NewInt(3))})
-		return e
-	})
-	for _, kv := range c.DumpPrefix(c.Ctx, "eth", []byte{0x18}) {
-		fmt.Printf("pool %x\n", kv.K)
-	}
-	for _, kv := range c.DumpPrefix(c.Ctx, "eth", []byte{0x25}) {
-		fmt.Printf("seq %s %x\n", kv.K[1:], kv.V)
-	}
-	try("reqbatch-noheight", func(ctx sdk.Context) error {
-		_, e := ms.RequestBatch(ctx, &crosschaintypes.MsgRequestBatch{ChainName: "eth", Sender: x.Oracles[0].Bridger.Acc().String(), Denom: "FX", MinimumFee: sdkmath.NewInt(1), FeeReceive: dest, BaseFee: sdkmath.NewInt(0)})
-		return e
-	})
-	try("bridgecall-noheight", func(ctx sdk.Context) error {
-		m := &crosschaintypes.MsgBridgeCall{ChainName: "eth", Sender: u.Acc().String(), Refund: v.Acc().String(), Coins: sdk.NewCoins(sdk.NewCoin("FX", sdkmath.NewInt(50)), sdk.NewCoin("usdt", sdkmath.NewInt(60))), To: dest, Data: "abcd", Memo: "", Value: sdkmath.ZeroInt()}
-		if e := m.ValidateBasic(); e != nil {
-			return e
+		if w.stuck && (op.Kind == "Observe" || op.Kind == "BatchExecuted" || op.Kind == "ObserveResult") {
+			break
 		}
-		_, e := ms.BridgeCall(ctx, m)
-		return e
-	})
-	// observe a height
-	nonce := uint64(1)
-	obs := func(h uint64) {
-		errs := x.ObserveAll(func() crosschaintypes.ExternalClaim {
-			return &crosschaintypes.MsgSendToFxClaim{EventNonce: nonce, BlockHeight: h, TokenContract: cFX, Amount: sdkmath.NewInt(1), Sender: dest, Receiver: u.Acc().String()}
-		})
-		fmt.Println("observe", h, errs, k.GetLastObservedBlockHeight(c.Ctx))
-		nonce++
-	}
-	obs(1000)
-	try("reqbatchFX", func(ctx sdk.Context) error {
-		r, e := ms.RequestBatch(ctx, &crosschaintypes.MsgRequestBatch{ChainName: "eth", Sender: x.Oracles[0].Bridger.Acc().String(), Denom: "FX", MinimumFee: sdkmath.NewInt(1), FeeReceive: dest, BaseFee: sdkmath.NewInt(0)})
-		fmt.Println("  resp", r)
-		return e
-	})
-	try("reqbatchB-sameblock", func(ctx sdk.Context) error {
-		r, e := ms.RequestBatch(ctx, &crosschaintypes.MsgRequestBatch{ChainName: "eth", Sender: x.Oracles[0].Bridger.Acc().String(), Denom: bdB, MinimumFee: sdkmath.NewInt(1), FeeReceive: dest, BaseFee: sdkmath.NewInt(0)})
-		fmt.Println("  resp", r)
-		return e
-	})
-	try("reqbatchB-basedenom", func(ctx sdk.Context) error {
-		r, e := ms.RequestBatch(ctx, &crosschaintypes.MsgRequestBatch{ChainName: "eth", Sender: x.Oracles[0].Bridger.Acc().String(), Denom: "usdt", MinimumFee: sdkmath.NewInt(1), FeeReceive: dest, BaseFee: sdkmath.NewInt(0)})
-		fmt.Println("  resp", r)
-		return e
-	})
-	try("cancelB", func(ctx sdk.Context) error {
-		_, e := ms.CancelSendToExternal(ctx, &crosschaintypes.MsgCancelSendToExternal{ChainName: "eth", TransactionId: 2, Sender: u.Acc().String()})
-		return e
-	})
-	try("bridgecall", func(ctx sdk.Context) error {
-		m := &crosschaintypes.MsgBridgeCall{ChainName: "eth", Sender: u.Acc().String(), Refund: v.Acc().String(), Coins: sdk.NewCoins(sdk.NewCoin("FX", sdkmath.NewInt(50)), sdk.NewCoin("usdt", sdkmath.NewInt(60))), To: dest, Data: "abcd", Memo: "", Value: sdkmath.ZeroInt()}
-		if e := m.ValidateBasic(); e != nil {
-			return e
+		ok, cur := w.step(op)
+		mon.Check(prop, op, ok, prev, cur)
+		res.ops = append(res.ops, op)
+		res.steps = append(res.steps, "("+coqOp(op)+", "+coqObs(ok, cur)+")")
+		rep.Count("op=" + op.Kind)
+		if ok {
+			rep.Count("accepted")
+			changed++
+		} else {
+			rep.Count("refused")
 		}
-		_, e := ms.BridgeCall(ctx, m)
-		return e
-	})
-	k.IterateOutgoingBridgeCalls(c.Ctx, func(o *crosschaintypes.OutgoingBridgeCall) bool { fmt.Println("bc", o); return false })
-	for _, b := range k.GetOutgoingTxBatches(c.Ctx) {
-		fmt.Println("batch", b)
+		rep.Case(fmt.Sprintf("%s/%d/%s/%v", hid, i, coqOp(op), ok), ok && op.Kind != "NextBlock")
+		prev = cur
 	}
-	bc, _ := k.GetOutgoingBridgeCallByNonce(c.Ctx, 1)
-	T := bc.Timeout
-	// result success at T-1, parked
-	errs := x.ObserveAll(func() crosschaintypes.ExternalClaim {
-		return &crosschaintypes.MsgBridgeCallResultClaim{EventNonce: nonce, BlockHeight: T - 1, Nonce: 1, TxOrigin: dest, Success: true, Cause: ""}
-	})
-	resNonce := nonce
-	nonce++
-	fmt.Println("result claim", errs)
-	bal("after result observed")
-	obs(T)
-	bal("after observe T")
-	_, found := k.GetOutgoingBridgeCallByNonce(c.Ctx, 1)
-	fmt.Println("bc still there:", found)
-	try("execclaim", func(ctx sdk.Context) error { return k.ExecuteClaim(ctx, resNonce) })
-	_ = fxtypes.DefaultDenom
+	for _, e := range prev.Events {
+		_ = e
+	}
+	res.fails = mon.fails
+	return res
+}
+
+func main() {
+	prop := os.Getenv("VERIF_PROP")
+	if prop == "" {
+		prop = "C05"
+	}
+	if crosschaintypes.OutgoingTxBatchSize != maxElems {
+		fmt.Println("types.OutgoingTxBatchSize changed:", crosschaintypes.OutgoingTxBatchSize)
+		os.Exit(3)
+	}
+	seed := lib.Seed()
+	if prop == "C06" {
+		seed += 1000003
+	}
+	r := lib.NewRand(seed)
+	nHist, nOps := 70, 36
+	if lib.Tier() == "thorough" {
+		nHist, nOps = 500, 60
+	}
+	if os.Getenv("VERIF_MODE") == "search" {
+		nHist, nOps = 700, 50
+	}
+	if v := lib.EnvInt("VERIF_N", 0); v > 0 {
+		nHist = int(v)
+	}
+	rep := lib.NewReport(prop)
+	rep.Rule = "histories of Send/Cancel/IncreaseFee/RequestBatch/BatchExecuted/Observe/BridgeCall/ObserveResult/ExecResult/NextBlock/SetParams on a fresh real app (3 users, FX + 2 plain bridge tokens + 1 unregistered, 6 parameter sets incl. uint64 wrap), targets and heights aimed at live ids and at T-1,T,T+1 of live time-outs, scripted motifs (newer batch executed first, fee increase racing a batch, equal fees, two batches in one block, >100 entries); one evaluation = one step; non-trivial = accepted state-changing step; distinct by (history, step, operation)"
+
+	var items []string
+	record := func(h histResult, hid string) {
+		items = append(items, coqCase(h.w, h.steps))
+		for _, f := range h.fails {
+			rep.Fail(lib.Failure{Kind: "monitor", What: f.what, Sig: f.sig, Replay: map[string]interface{}{"history": hid, "params": h.w.params0, "ops": h.ops}})
+		}
+		if len(h.ops) > 0 {
+			rep.Sample(map[string]interface{}{"history": hid, "first_ops": h.ops[:min(6, len(h.ops))]})
+		}
+	}
+
+	// scripted histories first: the witnesses of the Coq development replayed on the real application
+	for i, sc := range scripted(prop) {
+		hid := fmt.Sprintf("script-%d", i)
+		record(runHistory(prop, seed+int64(i), sc.prm, sc.float, len(sc.ops), nil, sc.ops, rep, hid), hid)
+	}
+	for i := 0; i < nHist; i++ {
+		g := &Gen{r: r, prop: prop, endBad: r.Chance(6)}
+		prm := paramSets[r.Intn(len(paramSets))]
+		float := int64(100000)
+		if r.Chance(25) {
+			float = 0
+		}
+		hid := fmt.Sprintf("h%d", i)
+		record(runHistory(prop, seed*1000+int64(i), prm, float, nOps, g, nil, rep, hid), hid)
+	}
+	lib.WriteCases("Cases_"+prop+".v", []string{"gen.Gen_TimeoutRules", "model.M_Pool", "model.M_PoolCorr"}, "pool_case", items, "pool_mismatch")
+	rep.Write()
+}
+
+func min(a, b int) int {
+	if a < b {
+		return a
+	}
+	return b
+}
+
+type script struct {
+	prm   [4]uint64
+	float int64
+	ops   []Op
+}
+
+// scripted: deterministic histories — the witnesses used by the Coq files, replayed on the real code.
+func scripted(prop string) []script {
+	var out []script
+	// (1) the C06 bridge-call witness: call with timeout T; all oracles observe result(success) at T-1, nobody
+	// executes it; any event at height >= T; then ExecuteClaim.
+	// params {60000,7000,1_200_000,3_600_001}: observed 1000 at the call's block => T = 1000 + 3 = 1003
+	out = append(out, script{paramSets[2], 100000, []Op{
+		{Kind: "Observe", H: 1000},
+		{Kind: "BridgeCall", Sender: 0, Refund: 1, Coins: [][2]int64{{0, 50}, {1, 60}}, To: 2, Data: []byte{0xab, 0xcd}},
+		{Kind: "ObserveResult", Nonce: 1, Success: true, H: 1002},
+		{Kind: "Observe", H: 1003},
+		{Kind: "ExecResult", E: 2},
+	}})
+	// (2) same, but the result is executed before the next event: no refund, the later event finds nothing
+	out = append(out, script{paramSets[2], 100000, []Op{
+		{Kind: "Observe", H: 1000},
+		{Kind: "BridgeCall", Sender: 0, Refund: 1, Coins: [][2]int64{{0, 50}, {1, 60}}, To: 2, Data: []byte{0xab, 0xcd}},
+		{Kind: "ObserveResult", Nonce: 1, Success: true, H: 1002},
+		{Kind: "ExecResult", E: 2},
+		{Kind: "Observe", H: 1003},
+	}})
+	// (3) batches: boundary T-1 (kept), T (kept: strict comparison), T+1 (cancelled); newer batch executed first
+	out = append(out, script{paramSets[2], 100000, []Op{
+		{Kind: "Send", Sender: 0, Dest: 1, Amount: 10, Fee: 5, Token: 0},
+		{Kind: "RequestBatch", Token: 0, Which: 1, FeeRcv: 0, MinFee: 1, Auth: true}, // refused: nothing observed yet
+		{Kind: "Observe", H: 500},
+		{Kind: "RequestBatch", Token: 0, Which: 1, FeeRcv: 0, MinFee: 1, Auth: true}, // T = 500
+		{Kind: "Send", Sender: 1, Dest: 1, Amount: 20, Fee: 9, Token: 0},
+		{Kind: "NextBlock"},
+		{Kind: "RequestBatch", Token: 0, Which: 1, FeeRcv: 0, MinFee: 1, Auth: true},
+		{Kind: "Observe", H: 499},
+		{Kind: "Observe", H: 500},
+		{Kind: "BridgeCall", Sender: 2, Refund: 2, Coins: [][2]int64{{2, 7}}, To: 0},
+		{Kind: "Observe", H: 501},
+		{Kind: "Cancel", ID: 1, Who: 0},
+		{Kind: "Observe", H: 503},
+		{Kind: "Observe", H: 504},
+	}})
+	// (4) more than 100 entries of one token: the batch takes the 100 best, ties by descending id
+	var big []Op
+	big = append(big, Op{Kind: "Observe", H: 77})
+	for i := 0; i < 103; i++ {
+		big = append(big, Op{Kind: "Send", Sender: i % 3, Dest: 0, Amount: 1, Fee: int64(1 + i%3), Token: 1})
+	}
+	big = append(big, Op{Kind: "RequestBatch", Token: 1, Which: 1, FeeRcv: 0, MinFee: 1, Auth: true},
+		Op{Kind: "NextBlock"},
+		Op{Kind: "RequestBatch", Token: 1, Which: 1, FeeRcv: 0, MinFee: 1, Auth: true},
+		Op{Kind: "IncreaseFee", ID: 1, Who: 0, Add: 300, Token: 1, Which: 1},
+		Op{Kind: "RequestBatch", Token: 1, Which: 1, FeeRcv: 0, MinFee: 1, Auth: true},
+		Op{Kind: "BatchExecuted", Token: 1, Nonce: 2, H: 78},
+	)
+	out = append(out, script{paramSets[0], 100000, big})
+	return out
 }
